@@ -377,22 +377,30 @@ func (c *ctx) ambientState() {
 	if fc, fd := c.findFunc(c.inter.PkgPath, "Processor", "Process"); fd != nil {
 		info := fc.pkg.TypesInfo
 		fresh := map[string]bool{}
-		ast.Inspect(fd.Body, func(n ast.Node) bool {
-			if call, ok := n.(*ast.CallExpr); ok {
-				if fn := astx.Callee(info, call); fn != nil {
-					fresh[fn.Name()] = true
-				}
+		// Process and the package-local helpers it delegates to (entered in place)
+		bodies := map[*ast.FuncDecl]bool{fd: true}
+		for _, ic := range astx.CallsInlined(info, fc.pkg.Syntax, fd, 2) {
+			bodies[ic.Fd] = true
+			if fn := astx.Callee(info, ic.Call); fn != nil {
+				fresh[fn.Name()] = true
 			}
-			return true
-		})
-		// no field of the receiver is written
+		}
+		// no field of a Processor receiver is written in any of them
 		wr := false
-		recv := info.Defs[fd.Recv.List[0].Names[0]]
-		astx.Writes(fd.Body, func(l ast.Expr, at ast.Node) {
-			if se, ok := astx.Unparen(l).(*ast.SelectorExpr); ok && astx.IdentObj(info, se.X) == recv {
-				wr = true
+		for body := range bodies {
+			if body.Recv == nil || len(body.Recv.List) == 0 || len(body.Recv.List[0].Names) == 0 {
+				continue
 			}
-		})
+			recv := info.Defs[body.Recv.List[0].Names[0]]
+			if on := ownerNamed(recv.Type()); on == nil || on.Obj().Name() != "Processor" {
+				continue
+			}
+			astx.Writes(body.Body, func(l ast.Expr, at ast.Node) {
+				if se, ok := astx.Unparen(l).(*ast.SelectorExpr); ok && astx.IdentObj(info, se.X) == recv {
+					wr = true
+				}
+			})
+		}
 		c.s.Check(fresh["newCompiler"] && fresh["newGenerator"] && !wr, "G3", "Processor.Process|fresh compiler and generator per file, receiver not mutated", c.pos(fd), "", "Process reuses a compiler/generator or mutates the Processor between files")
 	} else {
 		c.s.Unk("G3", "Processor.Process", "", "method not found")
